@@ -12,18 +12,25 @@ def hexList (s : String) : Option (List Bytes) :=
 
 def showInts (l : List Int) : String := if l.isEmpty then "." else ",".intercalate (l.map toString)
 
-/-- line: `<method> <hex host> <hex app> <via hex list | .> <mf hex list | .>` -/
+def run1 (cdnLoop : Bool) (m h a vs ms : String) : String :=
+  match Bytes.ofHex h, Bytes.ofHex a, hexList vs, hexList ms with
+  | some host, some app, some vias, some mfs =>
+    match outcomeWith cdnLoop host app (parseMethod m) vias mfs with
+    | .local501 => "local 501"
+    | .localTrace => "local 200"
+    | .denied => "local 403"
+    | .forward outs => "forward " ++ showInts outs
+  | _, _, _, _ => "bad-op"
+
+/-- line: `<method> <hex host> <hex app> <via hex list | .> <mf hex list | .> [F|A|C|D]`
+F (default) forward-proxy port; A accel port; C accel port + a CDN-Loop member naming this Squid; D forward port + that CDN-Loop -/
 def handle (line : String) : String :=
   match Driver.words line with
-  | [m, h, a, vs, ms] =>
-    match Bytes.ofHex h, Bytes.ofHex a, hexList vs, hexList ms with
-    | some host, some app, some vias, some mfs =>
-      match outcome host app (parseMethod m) vias mfs with
-      | .local501 => "local 501"
-      | .localTrace => "local 200"
-      | .denied => "local 403"
-      | .forward outs => "forward " ++ showInts outs
-    | _, _, _, _ => "bad-op"
+  | [m, h, a, vs, ms] => run1 false m h a vs ms
+  | [m, h, a, vs, ms, mode] =>
+    if mode == "F" || mode == "A" || mode == "D" then run1 false m h a vs ms
+    else if mode == "C" then run1 true m h a vs ms
+    else "bad-op"
   | _ => "bad-op"
 
 end Driver.C63
